@@ -10,6 +10,7 @@ package dhcpd
 
 import (
 	"fmt"
+	"github.com/AdguardTeam/AdGuardHome/internal/aghhttp"
 	"net"
 	"net/netip"
 	"sort"
@@ -39,6 +40,10 @@ type VerifC10Conf struct {
 	LeaseSec uint32
 	// Disabled: the v4 section is valid but DHCP is switched off.
 	Disabled bool
+	// HTTPRegister, when set, receives the real HTTP handlers of the server
+	// (then ConfigModified is what the handlers call after a change).
+	HTTPRegister   aghhttp.RegisterFunc
+	ConfigModified func()
 }
 
 // VerifC10New runs the real Create on cf.DataDir: v4Create with
@@ -48,6 +53,10 @@ func VerifC10New(cf VerifC10Conf) (vs *VerifC10Server, err error) {
 		Enabled: !cf.Disabled,
 		WorkDir: cf.DataDir,
 		DataDir: cf.DataDir,
+
+		HTTPRegister:   cf.HTTPRegister,
+		ConfigModified: cf.ConfigModified,
+
 		Conf4: V4ServerConf{
 			GatewayIP:     cf.Gateway,
 			SubnetMask:    cf.Mask,
@@ -113,6 +122,10 @@ func (vs *VerifC10Server) UpdateStatic(mac net.HardwareAddr, ip netip.Addr, host
 func (vs *VerifC10Server) RemoveStatic(mac net.HardwareAddr, ip netip.Addr, host string) (err error) {
 	return vs.srv.srv4.RemoveStaticLease(verifC10Lease(mac, ip, host))
 }
+
+// Iface returns the server as package home hands it to the DNS server and to
+// the clients registry.
+func (vs *VerifC10Server) Iface() (i Interface) { return vs.srv }
 
 // HostByIP, IPByHost, MACByIP and Leases are the answers given to DNS and
 // the clients registry, through the real [Interface] methods of *server.
